@@ -274,6 +274,7 @@ pub fn generate(kind: &str, thorough: bool, seed: u64, corpus: &str, out: &mut O
             let mut sis = pool();
             for i in 0..(3 * scale) { sis.push(gen::SchemaInfo::new(&format!("random{}", i), &gen::random_schema(&mut rng))); }
             sis.push(gen::SchemaInfo::new("merge-order", &format!("{}\ntype Human {{ name: String  nn: Int!  self: Human }}\ntype Query {{ human: Human }}\n", schemas::PRELUDE)));
+            sis.push(gen::SchemaInfo::new("no-subscription-root", &format!("{}\ntype Query {{ a: Int }}\ntype Mutation {{ m: Int }}\n", schemas::PRELUDE)));
             sis.push(gen::SchemaInfo::new("merge-abstract", &merge_sdl()));
             sis.push(gen::SchemaInfo::new("dup-names", &format!("{}\ntype Query {{ a: Int  f(x: Int!, y: Int, s: String): Int  t: T  u: U }}\ntype T {{ a: Int  t: T }}\ntype V {{ a: Int }}\nunion U = T | V\n", schemas::PRELUDE)));
             for si in &sis {
@@ -290,6 +291,12 @@ pub fn generate(kind: &str, thorough: bool, seed: u64, corpus: &str, out: &mut O
                               "query ($v: Int) { ...F } fragment F on Query { a } fragment F on Query { f(x: 1, y: $v) }",
                               "{ ...F } fragment F on Query { a } fragment F on Query { a }",
                               "query Q { a } query Q { zz }", "query Q { a } query Q { f(x: 1) }", "{ f(x: 1, x: \"s\") }", "{ f(x: 1, s: \"s\", s: 2) }"] { docs.push(t.to_string()); }
+                }
+                if si.name == "no-subscription-root" {
+                    // F19: the subscription-root `__typename` report of fields-on-correct-type is the only error
+                    docs.clear();
+                    for t in ["subscription { __typename }", "subscription S { __typename k: __typename }", "subscription { ... { __typename } }", "subscription { ...F } fragment F on Query { __typename }",
+                              "subscription { a }", "mutation { __typename }", "{ a ... { __typename } }"] { docs.push(t.to_string()); }
                 }
                 if si.name == "merge-abstract" {
                     // same-key fields under mutually exclusive parents (mostly valid): wrapping, inlining and permuting must not change the verdict
@@ -314,7 +321,7 @@ pub fn generate(kind: &str, thorough: bool, seed: u64, corpus: &str, out: &mut O
                               "{ human { x: name ...A } } fragment A on Human { ...B self { ...B } } fragment B on Human { x: nn }",
                               "{ human { self { x: name } ...A } } fragment A on Human { self { ...B } } fragment B on Human { x: name }"] { docs.push(t.to_string()); }
                 }
-                if si.name != "merge-order" && si.name != "dup-names" && si.name != "merge-abstract" { for k in 0..(36 * scale) { let mut g = gen::DocGen::new(si, rng.fork(), [0, 0, 4, 12][k % 4], 2 + k % 3); docs.push(g.document()); } }
+                if si.name != "merge-order" && si.name != "dup-names" && si.name != "merge-abstract" && si.name != "no-subscription-root" { for k in 0..(36 * scale) { let mut g = gen::DocGen::new(si, rng.fork(), [0, 0, 4, 12][k % 4], 2 + k % 3); docs.push(g.document()); } }
                 // a permuted copy of the schema (definitions, fields, arguments, enum values, union members, interface lists, directive locations)
                 let psd = crate::rewrite::perm_schema(&si.doc, &mut rng);
                 let psi = gen::SchemaInfo::new(&format!("{}-permuted", si.name), &format!("{}", psd));
